@@ -142,7 +142,10 @@ class CallGen:
                         ("return", ("bin", "-", ("var", l2), ("var", l1)))]
             params = [(P, "p")]
         else:  # nested
-            g = self.funcs[ch.choice(self.value_funcs(), "callee")]
+            vfs = self.value_funcs()
+            with_temps = [n for n in vfs if self.funcs[n]["kind"] in ("postinc", "loop", "nested")]
+            # prefer callees that have temporaries of their own: the outer routine keeps a call result live across them
+            g = self.funcs[ch.choice(with_temps if with_temps and ch.chance(2, 3, "temps-callee") else vfs, "callee")]
             gP = [pt for pt, _ in g["params"]]
             P = self.pick(ALL_T, lambda p: all(not (A and f5a(p, gp)) for gp in gP), "P") or gP[0]
             Rg = g["ret"]
